@@ -71,7 +71,7 @@ COMBOS_FULL = [(s, "none") for s in ALL_SHAPES] + [("plain", t) for t in TOPS_PL
 COMBOS_CORE = [("plain", "none"), ("raise", "none"), ("name", "none"), ("arg_qq", "none"), ("tmpl_deep", "none"),
                ("ptmpl", "none"), ("plain", "nested")]
 COMBOS_CORE5 = [("plain", "none"), ("raise", "none"), ("arg_qq", "none"), ("ptmpl", "none"), ("plain", "nested")]
-COMBOS_CTX = [("plain", "none"), ("tmpl_deep", "none")]
+COMBOS_CTX = [("plain", "none")]
 
 # n_full: all combinations; n_core: larger terms with the core combinations; ctx: context depths around the bare leaf
 BOUNDS = {
@@ -366,6 +366,12 @@ def check_case(acc, term, w_fn, shape, top, record_sample=False):
     if r["phase"] == "compile":
         acc.outcome("compile-error")
         bad("compile-failed", r["outcome"], rel=r["outcome"].split(":")[0])
+        return
+    if r["outcome"] in ("fuel", "timeout") and unspec and not r["lines"]:
+        # e.g. (+ (m-qq (boom 1)) (while (log 2 1) (log 3 0))): which argument runs first is
+        # not specified, and the sibling of the raising form never terminates
+        acc.unspecified += 1
+        acc.outcome("unspecified-order:sibling-diverges-first")
         return
     if r["outcome"] in ("fuel", "timeout"):
         acc.outcome("impl-" + r["outcome"])
